@@ -8,7 +8,8 @@ From Coq Require Import NArith List Bool.
 From Pq Require Import Format.Nested Impl.CAssemble Impl.CAssembleFixed Proofs.NestedProofs Proofs.CAssembleProofs
   Proofs.CAssemblePagesProofs Proofs.NestedMapProofs Proofs.NestedInvProofs
   Proofs.CAssembleTightProofs Proofs.CAssembleFixedProofs Proofs.CAssembleV2Proofs
-  Proofs.NestedStructProofs.
+  Proofs.NestedStructProofs Proofs.CAssemblePyProofs
+  Proofs.PyDictProofs Proofs.NestedPageProofs Proofs.HybridProofs Codec.Hybrid Base.Bytes.
 Import ListNotations.
 Open Scope N_scope.
 
@@ -49,6 +50,20 @@ Theorem C15_pages_partial :
 Proof. exact pages_v1_spec. Qed.
 Print Assumptions C15_pages_partial.
 
+(* impl, FULL: read_col as it is now (fix: the leading continuation of a page is appended by
+   read_col itself, _assemble_objects is only called at a row boundary; run_v1_py).  The property's
+   whole quantifier: EVERY cut of an accepted stream into aligned v1 pages - inside rows, only-null
+   continuations, rows spanning any number of pages, empty pages - gives the rows. *)
+Theorem C15_pages_full :
+  forall (V : Type) (sh : shape) (es : list entry) (vs : list V) (rows : list (row V)) (pages : list (page V)),
+    assemble_spec sh es vs = Some rows ->
+    pages_stream pages = (es, vs) -> pages_aligned sh pages = true ->
+    run_v1_py sh (length rows) pages = AOk rows.
+Proof. exact pages_v1_full. Qed.
+Print Assumptions C15_pages_full.
+
+(* the statements below about run_v1 describe the call shape BEFORE that fix (every page handed to
+   _assemble_objects with the carried index): they delimit the two .pyx defects of the function *)
 (* the guard is exact: for every accepted stream cut into non-empty aligned v1 pages, the model of
    today's code returns the rows IF AND ONLY IF the cut satisfies good_split.  Outside the guard
    the result is never the rows (wrong rows, or a fault: slot k of a row whose continued part held
@@ -144,6 +159,42 @@ Theorem C15_map_pages_partial :
     end.
 Proof. exact map_pages_v1. Qed.
 Print Assumptions C15_map_pages_partial.
+
+(* MAP cells are built by dict(zip(keys, values)) from the assembled pairs: in the dict built from a
+   pair list with possibly repeated keys the LAST value of a key wins and the keys keep the order of
+   their first occurrence *)
+Theorem C15_dict_last_wins :
+  forall (K V : Type) (keqb : K -> K -> bool), (forall a b, reflect (a = b) (keqb a b)) ->
+  forall (pairs : list (K * V)) (k : K),
+    alookup K V keqb k (py_dict K V keqb pairs) = alookup K V keqb k (rev pairs).
+Proof. exact py_dict_last_wins. Qed.
+Print Assumptions C15_dict_last_wins.
+
+Theorem C15_dict_keys_first_occurrence :
+  forall (K V : Type) (keqb : K -> K -> bool) (pairs : list (K * V)),
+    map fst (py_dict K V keqb pairs) = first_occurrences K keqb (map fst pairs).
+Proof. exact py_dict_keys. Qed.
+Print Assumptions C15_dict_keys_first_occurrence.
+
+(* nested page streams embed into the page payload framing with the proved hybrid codec: for any
+   runs that spell the repetition / definition levels of a page's entries, the spec decoder of the
+   v1 payload (le32 |R| R le32 |D| D values) and of the v2 payload (R D values, byte lengths from
+   the header) returns exactly those entries and leaves the value bytes untouched *)
+Theorem C15_page_payload_v1 : forall rw dw rruns druns vbytes (es : list entry),
+  Forall (run_wf rw) rruns -> Forall (run_wf dw) druns ->
+  allvals rruns = map fst es -> allvals druns = map snd es ->
+  N.of_nat (length (hyb_enc rw rruns)) < 2 ^ 32 -> N.of_nat (length (hyb_enc dw druns)) < 2 ^ 32 ->
+  dec_nested_v1 rw dw (N.of_nat (length es)) (nested_v1_payload rw dw rruns druns vbytes) = Some (es, vbytes).
+Proof. exact nested_v1_roundtrip. Qed.
+Print Assumptions C15_page_payload_v1.
+
+Theorem C15_page_payload_v2 : forall rw dw rruns druns vbytes (es : list entry),
+  Forall (run_wf rw) rruns -> Forall (run_wf dw) druns ->
+  allvals rruns = map fst es -> allvals druns = map snd es ->
+  dec_nested_v2 rw dw (N.of_nat (length es)) (N.of_nat (length (hyb_enc rw rruns))) (N.of_nat (length (hyb_enc dw druns)))
+                (nested_v2_payload rw dw rruns druns vbytes) = Some (es, vbytes).
+Proof. exact nested_v2_roundtrip. Qed.
+Print Assumptions C15_page_payload_v2.
 
 (* LIST / MAP groups below struct groups (flattened column "s1....sk.NAME"): every optional
    ancestor adds one definition level meaning "no collection in this row".  Spec side: folding
